@@ -6,11 +6,18 @@ cosmetic-pairs:     the same abbreviation under the syntax defaults and under a 
 indent-depth:       formatting on, formatSkip empty: every line after the first starts with
                     baseIndent + indent * (elements open at that point); closing tag aligned with its opening tag
 selfclose-exact:    html / xhtml / xml self-closing styles give the same string up to ` /` / `/` before `>`
+
+The three "-context" clauses repeat the three oracles with a *context row* of non-formatting options (output.tagCase,
+output.attributeCase, output.attributeQuotes, output.reverseAttributes, output.booleanAttributes, output.compactBoolean,
+jsx.enabled, bem.enabled) held equal on both sides of the comparison, over abbreviations that also carry upper / mixed
+case tag and attribute names: whatever else is configured, the formatting options stay cosmetic, the indentation equals
+the depth and the self-closing style changes the slash only.
 """
 import random
 
 from .common import Clause
-from .c03_tags import parse_markup, normalise, MarkupError, gen_tree, render_abbr, VOIDS, SNIPPET_VOID_TAGS, run_parallel_sorted
+from .c03_tags import (parse_markup, normalise, MarkupError, gen_tree, render_abbr, VOIDS, SNIPPET_VOID_TAGS, SNIPPET_SELFCLOSING,
+                       run_parallel_sorted)
 
 SYNTAXES = ['html', 'xml', 'xsl', 'jsx', 'vue', 'svelte']
 
@@ -64,6 +71,41 @@ AXES = [
     ('output.selfClosingStyle', [None, 'html', 'xhtml', 'xml']),
 ]
 
+# names typed in upper / mixed case (output.tagCase / output.attributeCase 'lower' and 'upper' both change something)
+CURATED_MIXED = [
+    'DIV>P', 'Foo>bAr[dataId=1]/', 'MyComp[onClick=x]>Item*2', 'UL>LI.item*2>A[HREF=x]{go}', 'div[Title=a DATA-x]>Span{t}',
+    'Table>TR>TD[colSpan=2]{x}', 'svg>linearGradient[gradientUnits=u]>stop/', 'IMG[SRC=a.png]/', 'div>Br/+Hr/+p', 'P>{txt}+B{b}',
+    'Section#Main.Wide>H1{T}+P[Lang=en]', 'Ul>Li*3>Em', 'FORM>INPUT[TYPE=text NAME=q]/+Label[For=q]{q}', 'x-Y>z-W/', 'Div>Div>Div[A B=c]',
+    'NAV.top>UL>LI.i$*2>A{n$}', 'p[Title]>b[LANG]', 'View>Text{hi}+Image[Source=s]/', 'BODY>DIV#Page>P.c', 'xsl:Template[Match=x]>Foo[Bar=1]',
+]
+
+# options that are *not* formatting options: they form the context in which the formatting options must stay cosmetic
+CONTEXT_AXES = [
+    ('output.tagCase', ['upper', 'lower']),
+    ('output.attributeCase', ['upper', 'lower']),
+    ('output.attributeQuotes', ['single', 'double']),
+    ('output.reverseAttributes', [True]),
+    ('output.booleanAttributes', [['title', 'lang', 'disabled'], []]),
+    ('output.compactBoolean', [True]),
+    ('jsx.enabled', [True, False]),
+    ('bem.enabled', [True]),
+]
+CONTEXT_WEIGHTS = [5, 5, 2, 2, 2, 2, 1, 1]
+
+
+def random_context(rng, compact=True):
+    """1 to 3 context options.  compact=False: without output.compactBoolean (the value-less form `b` / `b=""` of a compact
+    boolean attribute is tied to the self-closing style by the attribute property, C03; see notes)"""
+    o = {}
+    for _ in range(rng.randint(1, 3)):
+        k, vals = rng.choices(CONTEXT_AXES, CONTEXT_WEIGHTS)[0]
+        if k == 'output.compactBoolean' and not compact:
+            continue
+        o[k] = rng.choice(vals)
+    if not o:
+        o['output.tagCase'] = rng.choice(['upper', 'lower'])
+    return o
+
 
 def random_row(rng, force=None):
     o = {}
@@ -82,8 +124,8 @@ def _expand(abbr, syntax, options):
     return expand(abbr, {'syntax': syntax, 'options': dict(options)})
 
 
-def check_cosmetic(abbr, syntax, options):
-    base = _expand(abbr, syntax, {})
+def _same_content(abbr, syntax, base_options, options):
+    base = _expand(abbr, syntax, base_options)
     out = _expand(abbr, syntax, options)
     try:
         nb = normalise(parse_markup(base))
@@ -94,9 +136,21 @@ def check_cosmetic(abbr, syntax, options):
         k = 0
         while k < min(len(nb), len(no)) and nb[k] == no[k]:
             k += 1
-        return '%r (%s): content differs between default options and %r: item %d is %r vs %r; outputs %r vs %r' % (
-            abbr, syntax, options, k, nb[k] if k < len(nb) else None, no[k] if k < len(no) else None, base, out)
+        return '%r (%s): content differs between %s and %r: item %d is %r vs %r; outputs %r vs %r' % (
+            abbr, syntax, 'options %r' % (base_options,) if base_options else 'default options', options, k,
+            nb[k] if k < len(nb) else None, no[k] if k < len(no) else None, base, out)
     return None
+
+
+def check_cosmetic(abbr, syntax, options):
+    return _same_content(abbr, syntax, {}, options)
+
+
+def check_cosmetic_context(abbr, syntax, context, options):
+    """`context`: non-formatting options present on both sides; `options`: the formatting row added on one side"""
+    merged = dict(context)
+    merged.update(options)
+    return _same_content(abbr, syntax, context, merged)
 
 
 def check_selfclose(abbr, syntax, options):
@@ -232,6 +286,97 @@ def indent_cases(rng, n_random):
                 yield (a, syn, o, voids)
 
 
+# ---------------------------------------------------------------------------------------------
+# context clauses: abbreviations with upper / mixed case names, non-formatting options as context
+
+# for the indentation oracle, which recognises elements without closing tag by their (lower or upper case) name
+PLAIN_CURATED = [a for a in INDENT_CURATED + CURATED_EMPTY if a != 'xsl>tm'] + [a for a in CURATED_MIXED if '/' not in a] + [
+    'DIV>br/+P', 'Ul>Li*2>img/', 'Form[Action=x]>input[Type=text]/+P', 'Head>meta[Charset=x]/+link[Rel=y]/+Title{T}']
+
+
+def _recase_word(rng, w):
+    r = rng.random()
+    if r < 0.4:
+        return w.upper()
+    if r < 0.7:
+        return w[:1].upper() + w[1:]
+    k = rng.randrange(len(w))
+    return w[:k] + w[k:k + 1].upper() + w[k + 1:]
+
+
+def recase_tree(rng, nodes, p, keep=()):
+    """rewrites a share `p` of the element names (not those in `keep`) and of the attribute names (not id / class, which are
+    written `#` / `.`) of a c03_tags tree in upper / capitalised / inner-capital form"""
+    for nd in nodes:
+        if nd['name'] and nd['name'] not in keep and rng.random() < p:
+            nd['name'] = _recase_word(rng, nd['name'])
+        nd['attrs'] = [(_recase_word(rng, an) if an not in ('id', 'class') and rng.random() < p else an, av) for an, av in nd['attrs']]
+        recase_tree(rng, nd['children'], p, keep)
+    return nodes
+
+
+def context_abbreviations(rng, n_random, syntax, plain=False):
+    """plain=True: the subset usable by the indentation oracle (no texts with fields or leading blanks, no multi-line snippets;
+    the names by which that oracle recognises elements without closing tag keep their lower case)"""
+    xsl = syntax == 'xsl'
+    if plain:
+        for a in PLAIN_CURATED:
+            yield a
+    else:
+        for a in CURATED + CURATED_FIELDS + CURATED_EMPTY + CURATED_BLANK + CURATED_MIXED:
+            yield a
+    if xsl:
+        for a in CURATED_XSL:
+            if not (plain and a == 'xsl>tm'):
+                yield a
+    for _ in range(n_random):
+        t = gen_tree(rng, depth=rng.randint(1, 4), width=rng.randint(1, 3), snippets=rng.random() < 0.5, xsl=xsl,
+                     fields=not plain and rng.random() < 0.3,
+                     empty_texts=(['', '${0}', '${1}'] if plain else ['', '${0}', ' ', '${1}']) if rng.random() < 0.3 else None)
+        if rng.random() < 0.6:
+            recase_tree(rng, t, rng.choice([0.3, 0.6, 1.0]), VOIDS + SNIPPET_VOID_TAGS + SNIPPET_SELFCLOSING if plain else ())
+        yield render_abbr(t)
+
+
+def cosmetic_context_cases(rng, n_random, rows):
+    for syn in SYNTAXES:
+        for a in context_abbreviations(rng, n_random, syn):
+            for r in range(rows):
+                ctx = random_context(rng)
+                if r == 0:
+                    # one formatting axis alone, every value
+                    k, vals = AXES[rng.randrange(len(AXES))]
+                    opts = [{k: v} for v in vals if v is not None]
+                else:
+                    opts = [random_row(rng)]
+                for o in opts:
+                    if ctx.get('output.compactBoolean'):
+                        o.pop('output.selfClosingStyle', None)      # see random_context
+                    if o:
+                        yield (a, syn, ctx, o)
+
+
+def selfclose_context_cases(rng, n_random, rows):
+    for syn in SYNTAXES:
+        for a in context_abbreviations(rng, n_random, syn):
+            for r in range(rows):
+                o = random_row(rng) if r else {}
+                o.pop('output.selfClosingStyle', None)
+                o.update(random_context(rng, compact=False))
+                yield (a, syn, o)
+
+
+def indent_context_cases(rng, n_random, rows):
+    voids = VOIDS + SNIPPET_VOID_TAGS + ['z-w']
+    voids = voids + [v.upper() for v in voids]          # output.tagCase 'upper' prints <BR>, <IMG ...>
+    for syn in SYNTAXES:
+        for a in context_abbreviations(rng, n_random, syn, plain=True):
+            for r in range(rows):
+                o = random_row(rng, {'output.format': True, 'output.formatSkip': []}) if r else {'output.format': True, 'output.formatSkip': []}
+                o.update(random_context(rng))
+                yield (a, syn, o, voids)
+
+
 def run(tier, seed):
     rng = random.Random(seed)
     quick = tier == 'quick'
@@ -262,4 +407,39 @@ def run(tier, seed):
                 exhaustive=False)
     run_parallel_sorted(c3, 'bounded.c12', 'check_selfclose', selfclose_cases(rng, nr), chunk=400)
     c3.done()
-    return [c1, c2, c3]
+
+    # the same three oracles inside a context of non-formatting options, names in any case
+    nc, crow = (300, 3) if quick else (2500, 5)
+    ctx_axes = [k for k, _ in CONTEXT_AXES]
+    gen = ('%d curated abbreviations incl. %d with upper / mixed case tag and attribute names (+%d xsl ones under xsl) and %d seeded '
+           'random trees per syntax (c03_tags.gen_tree as above; in 60 %% of the trees 30 / 60 / 100 %% of the element and attribute '
+           'names rewritten in upper / capitalised / inner-capital form)')
+    n_all = len(CURATED + CURATED_FIELDS + CURATED_EMPTY + CURATED_BLANK + CURATED_MIXED)
+    c4 = Clause('cosmetic-pairs-context', 'B',
+                (gen % (n_all, len(CURATED_MIXED), len(CURATED_XSL), nc)) + '; each under a context row of 1-3 non-formatting options over %s, '
+                'compared between the context alone and the context plus a formatting row over the axes of cosmetic-pairs' % ctx_axes,
+                'syntaxes %r; per abbreviation %d context rows: one with every value of one formatting axis (rotating), the others with a '
+                'random formatting row; no self-closing style change under output.compactBoolean' % (SYNTAXES, crow),
+                'a case is (abbreviation, syntax, context row, formatting row); tags, attributes and text (white space, comments, '
+                'self-closing slash dropped) must be equal with and without the formatting row', exhaustive=False)
+    run_parallel_sorted(c4, 'bounded.c12', 'check_cosmetic_context', cosmetic_context_cases(rng, nc, crow), chunk=400)
+    c4.done()
+
+    n_plain = len(PLAIN_CURATED)
+    c5 = Clause('indent-equals-depth-context', 'B',
+                (gen % (n_plain, len(CURATED_MIXED), len(CURATED_XSL) - 1, nc)) + ' (abbreviation subset of indent-equals-depth; br hr wbr img input link meta keep their lower case); formatting on, '
+                'output.formatSkip empty, other formatting options random, plus a context row of 1-3 options over %s' % ctx_axes,
+                'syntaxes %r, 2 option rows per abbreviation' % (SYNTAXES,),
+                'a case is (abbreviation, syntax, options); oracle of indent-equals-depth', exhaustive=False)
+    run_parallel_sorted(c5, 'bounded.c12', 'check_indent', indent_context_cases(rng, nc, 2), chunk=400)
+    c5.done()
+
+    c6 = Clause('selfclose-exact-context', 'B',
+                (gen % (n_all, len(CURATED_MIXED), len(CURATED_XSL), nc)) + '; html vs xhtml vs xml self-closing style under otherwise equal '
+                'options: a context row of 1-3 options over %s plus (second row on) a random formatting row' % [k for k in ctx_axes if k != 'output.compactBoolean'],
+                'syntaxes %r, %d rows per abbreviation' % (SYNTAXES, crow),
+                'a case is (abbreviation, syntax, options); the three outputs must be equal strings after deleting " /" resp. "/" before ">"',
+                exhaustive=False)
+    run_parallel_sorted(c6, 'bounded.c12', 'check_selfclose', selfclose_context_cases(rng, nc, crow), chunk=400)
+    c6.done()
+    return [c1, c2, c3, c4, c5, c6]
